@@ -42,7 +42,7 @@ TIERS = {
         exhaustive=[dict(min_n=1, max_n=3, max_groups=1, max_reps=2,
                          timing=True)],
         sampled=[(3, 700), (4, 1100), (5, 700)],
-        abstract_cap=1200, programs=8, stub_programs=[0, 1, 3, 4],
+        abstract_cap=1200, programs=6, stub_programs=[0, 1, 3, 4],
         runmany=3, shards=5,
         enum_cfg='MCConcertinaEnum.cfg',
         enum_args=dict(min_n=1, max_n=3, min_reps=1, max_reps=2, max_groups=1,
